@@ -312,6 +312,7 @@ func streamDisp(c *Ctx) {
 		return
 	}
 	specReuseProbe(c)
+	doneContextChainProbe(c, "disp-once")
 	r := c.Rng
 	kinds := []string{"unary", "client", "server", "bidi"}
 	codecSets := []string{"proto,json", "proto,json,raw", "proto,json,a,b", "proto,json,json2", "proto,json,raw+v2", "proto,json,,x", "proto,json,grpc,grpc-web", "proto,json,grpc+json,grpc-web+proto", "proto,json,Custom,MixedCase+v2"}
